@@ -704,13 +704,94 @@ fn after_failures_probe(rep: &mut Report) {
         check(rep, "a search over a value that refuses three levels down");
         let r = guarded(|| rt.compile("isqrt(n)").and_then(|e| e.search(rcvar_of(&json!({"n": -16})))));
         if r.is_ok() {
-            rep.violation("C13/harness", json!({"problem": "the panicking custom function did not panic", "round": round}));
+            if round == 0 {
+                rep.harness_error("the panicking custom function of the after-failures probe did not panic on its first call".to_string());
+            } else {
+                // it panicked in round 0 and no longer does: the same call behaves differently after the earlier one
+                rep.violation(
+                    "C13/result-depends-on-history/after-a-failed-call",
+                    json!({"expression": "isqrt(n)", "document": {"n": -16}, "first_call": "panic inside the custom function", "later_call": r.as_ref().ok().map(fingerprint), "round": round}),
+                );
+            }
         }
         check(rep, "a custom function that panicked (caught by the caller)");
         let _ = guarded(|| rt.compile("sort_by(@, &isqrt(n))").and_then(|e| e.search(rcvar_of(&json!([{"n": 4}, {"n": -1}, {"n": 9}])))));
         check(rep, "a custom function that panicked inside sort_by");
         let _ = guarded(|| rt.compile("isqrt('x')").and_then(|e| e.search(rcvar_of(&json!(null)))));
         check(rep, "a custom function call rejected by its signature");
+    }
+}
+
+/// Every way the API hands out a copy of a compiled expression — `clone`, `clone_from` over an expression
+/// of the same / another text compiled through the same / another runtime, copies of copies, copies that
+/// outlive their source — searches exactly like a fresh compile of the source's text through the source's
+/// runtime. Two runtimes register the same function name with different behaviour, so a copy that kept
+/// anything of its previous self (tree, text or runtime) answers differently.
+fn copies_probe(rep: &mut Report) {
+    let mk = |tag: &'static str| {
+        let mut rt = Runtime::new();
+        rt.register_builtin_functions();
+        rt.register_function("tag", Box::new(move |_: &[Rcvar], _: &mut Context<'_>| Ok(Rcvar::new(jmespath::Variable::String(tag.to_string())))));
+        rt
+    };
+    let (rt1, rt2) = (mk("one"), mk("two"));
+    let mut plain = Runtime::new();
+    plain.register_builtin_functions();
+    let rts: [(&str, &Runtime); 3] = [("one", &rt1), ("two", &rt2), ("plain", &plain)];
+    const TEXTS: [&str; 6] = ["[tag(), length(a)]", "tag()", "a | [tag(), @[0]]", "map(&tag(), a)", "length(a)", "a[?@ > `1`] | [tag(), @]"];
+    let doc = rcvar_of(&json!({"a": [1, 2, 3]}));
+    let fresh = |rt: &Runtime, text: &str| fingerprint(&rt.compile(text).and_then(|e| e.search(&doc)));
+    for (na, ra) in rts.iter() {
+        for (nb, rb) in rts.iter() {
+            for ta in TEXTS.iter() {
+                for tb in TEXTS.iter() {
+                    if ta != tb && (na != nb) && TEXTS.iter().position(|x| x == ta).unwrap() % 2 == 1 {
+                        continue; // keep the table at a few hundred cells
+                    }
+                    let (a, b) = match (ra.compile(ta), rb.compile(tb)) {
+                        (Ok(a), Ok(b)) => (a, b),
+                        _ => continue,
+                    };
+                    let want = fresh(rb, tb);
+                    let want_a = fresh(ra, ta);
+                    // searched or not before being overwritten
+                    for searched_before in [false, true] {
+                        let mut target = a.clone();
+                        if searched_before {
+                            let _ = guarded(|| target.search(&doc).is_ok());
+                        }
+                        rep.evaluations += 1;
+                        let outcome = guarded(|| {
+                            target.clone_from(&b);
+                            let first = fingerprint(&target.search(&doc));
+                            let copy_of_copy = target.clone();
+                            let second = fingerprint(&copy_of_copy.search(&doc));
+                            (first, second, target.as_str().to_string())
+                        });
+                        match outcome {
+                            Ok((first, second, text)) if first == want && second == want && text == *tb => rep.count("copies_answer_like_their_source"),
+                            other => rep.violation(
+                                "C13/copy-does-not-answer-like-its-source",
+                                json!({"operation": "target.clone_from(&source)", "target_before": {"text": ta, "runtime": na, "searched_before": searched_before}, "source": {"text": tb, "runtime": nb},
+                                       "fresh_compile_of_the_source": want, "got(first search, search of a clone of it, text)": format!("{:?}", other)}),
+                            ),
+                        }
+                    }
+                    // the source is untouched, and a clone outlives it
+                    rep.evaluations += 1;
+                    let kept = a.clone();
+                    drop(a);
+                    let g = guarded(|| fingerprint(&kept.search(&doc)));
+                    if g.as_deref() != Ok(want_a.as_str()) {
+                        rep.violation("C13/copy-does-not-answer-like-its-source", json!({"operation": "clone, then drop the original", "text": ta, "runtime": na, "fresh_compile": want_a, "got": format!("{:?}", g)}));
+                    }
+                    let gb = guarded(|| fingerprint(&b.search(&doc)));
+                    if gb.as_deref() != Ok(want.as_str()) {
+                        rep.violation("C13/copy-does-not-answer-like-its-source", json!({"operation": "source after having been copied from", "text": tb, "runtime": nb, "fresh_compile": want, "got": format!("{:?}", gb)}));
+                    }
+                }
+            }
+        }
     }
 }
 
@@ -725,6 +806,9 @@ pub fn run(args: &Args) {
     bare_runtime_probe(&mut rep, "after another thread used the default runtime");
     if args.shard == 0 {
         stack_and_neighbours_probe(&mut rep);
+    }
+    if args.shard == 2 % args.shards {
+        copies_probe(&mut rep);
     }
     if args.shard == 1 % args.shards {
         after_failures_probe(&mut rep);
